@@ -80,6 +80,17 @@ type Config struct {
 	// RequestTimeout is timeout duration for all synchronous requests over SecureChannel.
 	// If the Server doesn't respond within RequestTimeout time, Client returns StatusBadTimeout
 	RequestTimeout time.Duration
+
+	// SecurityAllowed is used by server channels only. A server channel takes
+	// the security policy and the security mode from the OpenSecureChannel
+	// request of the client. If SecurityAllowed is set it is called for every
+	// such request, issue and renew, with the security policy URI of the
+	// asymmetric security header and the requested security mode. A non-nil
+	// error refuses the request: no response is sent and the error is returned
+	// by Receive. Servers should return ua.StatusBadSecurityPolicyRejected or
+	// ua.StatusBadSecurityModeRejected.
+	// If SecurityAllowed is nil every supported policy is accepted with any mode.
+	SecurityAllowed func(policyURI string, mode ua.MessageSecurityMode) error
 }
 
 // SessionConfig is a set of common configurations used in Session.
